@@ -101,7 +101,7 @@ inductive Act
   | replaceRaw (ev : Nat) (h : Handler) -- replace_handler('ev{cond}' / 'ev.N', ...): the lookup uses the unsplit string,
                                         -- nothing is ever removed; then add_handler
   | raise                              -- the handler / callback raises here
-  | resolve (wid : Nat)                -- `_future.set_result(kwargs)` of `_wait_handler` (InvalidStateError if done)
+  | resolve (wid : Nat)                -- `_future.set_result(kwargs)` of `_wait_handler` (nothing happens if the future is done)
   | monitor (on : Bool)                -- `monitor_events = on` (BCP event monitor)
   | reenter                            -- `process_event_queue()` called by a handler / callback, i.e. from inside the
                                        -- loop: with the re-entrancy guard nothing happens (the running invocation
@@ -283,7 +283,7 @@ def runAct (c : Core) : Act → Core × List Posted
   | .replaceRaw ev h => ({ c with reg := addHandlerF c.facts c.reg ev h }, [])
   | .raise => ({ c with raised := true }, [])
   | .resolve wid =>
-    if c.resolved.contains wid then ({ c with raised := true }, [])
+    if c.resolved.contains wid then (c, [])     -- `if _future.done(): return` (fix 7ae9e07; it raised InvalidStateError before)
     else ({ c with resolved := wid :: c.resolved, mlog := c.mlog ++ [(c.log.length, SObs.fut wid)] }, [])
   | .monitor on => ({ c with mon := on }, [])
   | .reenter => (c, [])
